@@ -578,6 +578,41 @@ SUBST_COUNTS = {}
 SUBST_NEED = {}
 FLOAT_LITS = set()
 
+ITER_ADAPTERS = {"enumerate", "fold", "max_by", "cloned", "map", "filter", "collect", "take", "copied", "zip", "rev", "any", "all", "sum"}
+
+def r15_unmodelled(toks, log):
+    """R15 (havoc rule): `let PAT [: T] = <expression using an iterator adapter>;` becomes
+    `let PAT [: T] = vx_unmodelled();` -- an arbitrary value of the declared type.  Over-approximation: what is proved
+    holds for every value the statement could produce; the statement is listed in the evidence as unmodelled."""
+    toks = list(toks)
+    i = 0
+    while i < len(toks):
+        t = toks[i]
+        if t.kind == "id" and t.text == "let":
+            try:
+                e = stmt_end(toks, i)
+            except Undecided:
+                i += 1; continue
+            # find '=' at depth 0
+            d = 0; eq = None
+            for k in range(i + 1, e):
+                u = toks[k]
+                if u.kind == "punct" and u.text in OPEN: d += 1
+                elif u.kind == "punct" and u.text in CLOSE: d -= 1
+                elif d == 0 and P(u, "=") : eq = k; break
+            if eq is not None:
+                rhs = toks[eq + 1:e]
+                hit = any(rhs[k].kind == "id" and rhs[k].text in ITER_ADAPTERS and k > 0 and P(rhs[k - 1], ".") and k + 1 < len(rhs) and P(rhs[k + 1], "(") for k in range(len(rhs)))
+                # only top-level statements whose initialiser is a single method chain (no block bodies of their own)
+                if hit and not any(P(u, "{") for u in rhs if True) :
+                    ln = t.line
+                    log.append(("R15", ln, "unmodelled iterator statement: " + " ".join(u.text for u in toks[i:e])[:160]))
+                    toks[eq + 1:e] = toks_of("vx_unmodelled()", ln)
+                    i = eq + 4
+                    continue
+        i += 1
+    return toks
+
 def r5_local_const(toks, log):
     """fn-local `const N: T = e;` -> `let N: T = e;` (applied to fn bodies only)"""
     toks = list(toks)
@@ -674,6 +709,8 @@ def apply_rewrites(toks, cfg, log):
     if cfg.get("subst_pre"):
         toks = subst(toks, log, cfg["subst_pre"])
     toks = r16_assert_eq(toks, log)
+    if cfg.get("unmodelled"):
+        toks = r15_unmodelled(toks, log)
     toks = r7_slice_copy(toks, log)
     if cfg.get("tolerance_vars"):
         toks = r9_index(toks, log, set(cfg["tolerance_vars"]), rule="R9")
@@ -822,6 +859,8 @@ def extract_take(repo, arg, cfg, world, log):
     for u in item:
         if u.kind == "num" and _gen.is_float_lit(u.text):
             FLOAT_LITS.add(u.text)
+    if opts.get("trusted"):
+        item = make_trusted(item, log)
     if opts.get("pubfields"):
         item = pub_fields(item, log)
     if opts.get("ghostfield"):
@@ -832,6 +871,36 @@ def extract_take(repo, arg, cfg, world, log):
         # R8/R9: `impl Index<..> for T { type Output = ..; fn index(..) }` -> `impl T { fn index(..) }`
         item = as_inherent(item, log)
     return layout(item)
+
+def make_trusted(toks, log):
+    """`| trusted`: the signature of every fn in the item is kept (so it is re-read from /repo on every run) but its body
+    is replaced by `unimplemented!()` under #[verifier::external_body]; the woven contract is then an ASSUMED contract
+    (proved in the unit that owns the function, or trusted when no unit does) -- listed as such in the evidence."""
+    toks = list(toks)
+    i = 0
+    while i < len(toks):
+        t = toks[i]
+        if t.kind == "id" and t.text == "fn" and i + 1 < len(toks) and toks[i + 1].kind == "id":
+            # start of this fn item: walk back over `pub`, `pub(crate)`, `const`
+            s0 = i
+            while s0 > 0 and ((toks[s0 - 1].kind == "id" and toks[s0 - 1].text in ("pub", "const", "unsafe")) or P(toks[s0 - 1], ")")):
+                if P(toks[s0 - 1], ")"):
+                    s0 = match_open(toks, s0 - 1)
+                else:
+                    s0 -= 1
+            try:
+                bo, bc = body_range(toks, i, len(toks))
+            except Undecided:
+                i += 1; continue
+            ln = toks[bo].line
+            toks[bo:bc + 1] = toks_of("{ unimplemented!() }", ln)
+            attr = toks_of("#[verifier::external_body]", toks[s0].line)
+            toks[s0:s0] = attr
+            log.append(("TRUSTED", ln, "body of fn %s replaced by unimplemented!() (assumed contract)" % toks[i + len(attr) + 1].text))
+            i = i + len(attr) + 2
+            continue
+        i += 1
+    return toks
 
 def pub_fields(toks, log):
     """R22: private struct fields are made `pub` (one verification file = one module; Verus treats a
